@@ -9,6 +9,7 @@ import (
 	"fmt"
 	"os"
 	"path/filepath"
+	"runtime/debug"
 	"sort"
 	"sync"
 	"testing"
@@ -274,7 +275,7 @@ func Replay(t *testing.T, path string) error {
 func safely(f func() error) (err error) {
 	defer func() {
 		if p := recover(); p != nil {
-			err = Failf("harness/panic", "%v", p)
+			err = Failf("harness/panic", "%v\n%s", p, debug.Stack())
 		}
 	}()
 	return f()
@@ -316,13 +317,13 @@ func RunMachine[O any](t *testing.T, property, name, rule string, mk func() Mach
 				}
 				op := m.Next(rt)
 				h.Ops = append(h.Ops, op)
-				if err := m.Apply(op); err != nil {
+				if err := safely(func() error { return m.Apply(op) }); err != nil {
 					fail(err)
 				}
 			},
 		})
 		if !stopped {
-			if err := m.Finish(); err != nil {
+			if err := safely(m.Finish); err != nil {
 				fail(err)
 			}
 		}
@@ -339,7 +340,13 @@ func RunPure[I any](t *testing.T, property, name, rule string, gen func(*rapid.T
 	defer st.Flush()
 	rapid.Check(t, func(rt *rapid.T) {
 		in := gen(rt)
-		err, nt, classes := check(in)
+		var nt bool
+		var classes []string
+		err := safely(func() error {
+			var e error
+			e, nt, classes = check(in)
+			return e
+		})
 		if err != nil {
 			if sig, ok := knownHit(err); ok {
 				st.Exclude(sig)
